@@ -125,9 +125,10 @@ def chooseEncoding (ae : Bytes) (cfg : Cfg) : Bytes :=
   if brOK then brB else if gzOK then gzipB else []
 
 /-- the early exits of `New` -/
-def active (cfg : Cfg) (path ae : Bytes) : Bytes :=
+def active (cfg : Cfg) (path ae : Bytes) (h0 : Hdrs) : Bytes :=
   if cfg.exclPaths.any (· == path) then []
   else if cfg.exclExts.any (fun e => hasSuffix path e) then []
+  else if !(hfirst h0 kCE).isEmpty then []       -- "already compressed": an outer middleware set Content-Encoding
   else chooseEncoding ae cfg
 
 /-! ### the repaired compressWriter -/
@@ -244,17 +245,17 @@ def CW.step (sn : Sniff) (w : CW) (o : Op) : CW × Option WOut :=
     | .panic => ({ w.close sn with restored := true }, none)
 
 /-- the state in which the middleware leaves the writer when the chain has returned -/
-def finalCW (sn : Sniff) (cfg : Cfg) (enc : Bytes) (ops : List Op) : CW × List WOut :=
-  let r := runOps (CW.step sn) ({ thr := cfg.minSize, enc := enc, exclCT := cfg.exclCT } : CW) ops
+def finalCW (sn : Sniff) (cfg : Cfg) (enc : Bytes) (h0 : Hdrs) (ops : List Op) : CW × List WOut :=
+  let r := runOps (CW.step sn) ({ base := { live := h0 }, thr := cfg.minSize, enc := enc, exclCT := cfg.exclCT } : CW) ops
   (if r.1.restored then r.1 else r.1.close sn, r.2)
 
-def runWith (sn : Sniff) (cfg : Cfg) (path ae : Bytes) (ops : List Op) : WithResp :=
-  let enc := active cfg path ae
+def runWith (sn : Sniff) (cfg : Cfg) (path ae : Bytes) (h0 : Hdrs) (ops : List Op) : WithResp :=
+  let enc := active cfg path ae h0
   if enc.isEmpty then
-    let r := runPlain sn ops
+    let r := runPlain sn h0 ops
     { panicked := r.1.panicked, resp := r.1.resp, decoded := some r.1.resp.body, outs := r.2 }
   else
-    let r := finalCW sn cfg enc ops
+    let r := finalCW sn cfg enc h0 ops
     let w := r.1
     let b := w.base.finish sn
     if w.compress && w.hasWriter then
